@@ -27,7 +27,7 @@ REQUIRED = {
     "entropy_checks": 30, "noise_invariance_checks": 20, "greedy_checks": 100,
     "loop_steps_checked": 200, "shape_combinations": 20,
 }
-TIMEOUT = {"quick": 1200, "thorough": 3400}
+TIMEOUT = {"quick": 1200, "thorough": 7000}
 ASSUMPTIONS = ["float32 outputs vs float64 closed forms: rtol 1e-4, atol 1e-4",
                "exploration-rate check is statistical (6 sigma, Poisson-binomial)"]
 
@@ -36,7 +36,7 @@ LOG2PI = float(np.log(2 * np.pi))
 
 def gen_cases(tier, seed):
     rng = np.random.default_rng(seed + 1313)
-    k = 1 if tier == "quick" else 8
+    k = 1 if tier == "quick" else 24
     cases = []
     for head in ("softmax", "gaussian", "tanh_gaussian"):
         for B in (None, 1, 2, 5):
